@@ -9,7 +9,7 @@ from vk.build import build, pack_bp, unpack_bp
 ID = 'C05'
 RULE = ('Hypothesis-generated netlists x arbitrary non-negative float delays (not only dyadic; 4 independent entries per line) x stimuli over '
         '{0,1,R,F} per input and lane with an arbitrary transition time x {c_reuse, strip_forks} independently for both simulators x capacities '
-        '16..64 x WaveSim/WaveSimCuda. Differential oracle: the same stimulus through LogicSim(m=8) and the timing simulator; at every output and '
+        '4..64 (overflow only removes transitions, so both clauses still apply) x WaveSim/WaveSimCuda. Differential oracle: the same stimulus through LogicSim(m=8) and the timing simulator; at every output and '
         'state element (s[3], s[6]) = (initial, final) component of the 8-valued code, and wherever the code is plain 0/1: s[4]=TMAX, s[5]=TMIN and '
         'the waveform has no finite entry. Random internal signals are tapped by extra outputs. non-trivial: some output is a hazard-free constant '
         'although an input in its cone switches (masking) and some output has activity; distinct by SHA-1 of the case.')
@@ -27,7 +27,7 @@ def cases(draw, tier):
                          min_size=n, max_size=n))
     dpool = draw(st.lists(st.one_of(st.sampled_from([0, 0, 1]), st.integers(0, 3000)), min_size=8, max_size=24))
     return dict(nl=nl, lanes=lanes, stim=[[list(x) for x in row] for row in stim], dpool=dpool,
-                caps=draw(st.sampled_from([16, 32, 64])),
+                caps=draw(st.sampled_from([4, 8, 16, 16, 32, 64])),
                 w_reuse=draw(st.booleans()), w_strip=draw(st.booleans()), l_reuse=draw(st.booleans()), l_strip=draw(st.booleans()),
                 cuda=draw(st.sampled_from([False, False, True])))
 
